@@ -24,6 +24,64 @@ CHECKS = {
         note='Trusts stdlib json/base64 as the reference. Container ints >= 10^100 are outside the '
              'stated domain (documented parse guard) and only checked for totality.',
         design='4/C01'),
+    'C02': dict(
+        technique=PBT + 'a reference body reader; exhaustive enumeration of all short strings over '
+                        'an adversarial alphabet',
+        text='Every string of length <=4 over 20 symbols (quick, 168k) / <=5 over 24 symbols '
+             '(thorough, 8.3M) is decoded and compared with a reference reader (invalid => must '
+             'raise, well-formed => equal, rest => total); plus generated packet lists of 0..20 '
+             'packets (encode == separator join, round trip, >16 refused, d= forms) and size '
+             'templates for no-hang. Exhaustive for the short-string domain only.',
+        note='Trusts stdlib json/base64/urllib.parse. Malformed base64, non-ASCII digits and '
+             'nesting beyond the recursion limit are open cells (totality only). Hangs are '
+             'detected by a 5 s x3 wall-clock rule on templates.',
+        design='4/C02'),
+    'C11': dict(
+        technique='enumeration of the configuration grid x handler outcomes on fresh servers, '
+                  'model oracle; behavioural confirmation of advertised upgrades',
+        text='124416-cell grid of ping_interval/timeout/grace, buffer size, allow_upgrades, '
+             'transports, cookie forms, connect-handler outcomes, open kind, JSONP, both servers; '
+             'quick runs a seed-ordered quarter, thorough all of it (exhaustive for the grid).',
+        note=KERNEL_NOTE + ' Set-Cookie on WebSocket opens is an open cell.', design='4/C11'),
+    'C12': dict(
+        technique='exhaustive enumeration of the request cross product against freshly built '
+                  'session states, reference admission rule + no-side-effect oracle',
+        text='All 38400 feasible cells of method x EIO x transport x sid kind x request kind x '
+             'JSONP index x configured transports x server, each on a fresh world with a queued '
+             'tagged message and a bystander session; refused requests must leave events, '
+             'sessions, queue and transport() untouched. Exhaustive for this product in both '
+             'tiers; cells the statement does not decide are open (counted).',
+        note=KERNEL_NOTE, design='4/C12'),
+    'C17': dict(
+        technique=PBT + 'algebraic laws of the id generator under a controlled random source; '
+                        'exhaustive full-period enumeration (thorough)',
+        text='Format, pair law id(c+a,r)!=id(c+b,r) for offsets < 2^24, counter step law at all '
+             'power-of-two boundaries and the wrap, >=12 CSPRNG bytes requested and >=96 '
+             'effective bits per issue, consecutive windows across the wrap; thorough enumerates '
+             'the full period of 2^24 issues from two starts (exhaustive).',
+        note='Reads/writes server.sequence_number (anchored state) to start windows; replaces '
+             'secrets/os.urandom as seen by engineio.base_server. Unpredictability itself is not '
+             'testable.',
+        design='4/C17'),
+    'C19': dict(
+        technique=PBT + 'an ECMAScript string-literal evaluator and stdlib gzip/zlib as inverse; '
+                        'exhaustive short strings for the JSONP encoder',
+        text='All strings <=3/4 over a 16-symbol adversarial alphabet through '
+             'Payload.encode(jsonp_index), generated payload lists, and end-to-end polls on both '
+             'servers with drawn Accept-Encoding shapes, compression on/off, thresholds around the '
+             'body size and JSONP indices; losslessness and labelling oracle.',
+        note=KERNEL_NOTE + ' The evaluator is cross-checked against nodejs when present. q=0 '
+             'offers are an open cell.', design='4/C19'),
+    'C20': dict(
+        technique='exhaustive enumeration of segment sequences + generated paths against a '
+                  'temporary file tree, black-box content oracle and reference router',
+        text='All paths of <=3/4 segments from a 16-segment alphabet (with/without trailing slash) '
+             'for 6/10 configurations of WSGIApp/ASGIApp, generated longer paths for all '
+             'configurations, and all 200 lifespan cases; served files identified by unique '
+             'content must lie in mapped roots, content types, engine reached iff under the '
+             'endpoint, clean paths equal the reference router.',
+        note='Uses a tempfile tree outside /repo and /verif. /engine.io without trailing slash is '
+             'an open cell.', design='4/C20'),
     'C03': dict(
         technique='stateful property-based testing: Hypothesis-drawn session histories executed '
                   'against the real servers under a deterministic scheduler/clock, per-session '
